@@ -11,6 +11,42 @@ from .model import ClassInfo, Module, Program
 from .terms import Env, Interp
 
 
+STANDARD_ALIASES = {
+    "jnp": "jax.numpy", "jr": "jax.random", "jax": "jax", "eqx": "equinox", "lax": "jax.lax", "nn": "jax.nn",
+    "jnn": "jax.nn", "np": "numpy", "optax": "optax", "math": "math", "operator": "operator", "inspect": "inspect",
+    "softplus": "jax.nn.softplus", "log_softmax": "jax.nn.log_softmax", "logsumexp": "jax.scipy.special.logsumexp",
+    "jstats": "jax.scipy.stats", "linalg": "jax.numpy.linalg", "solve_triangular": "jax.scipy.linalg.solve_triangular",
+    "block_diag": "jax.scipy.linalg.block_diag", "partial": "functools.partial", "wraps": "functools.wraps",
+    "prod": "math.prod", "accumulate": "itertools.accumulate", "scan": "jax.lax.scan", "vmap": "jax.vmap",
+    "stop_gradient": "jax.lax.stop_gradient", "tree_map": "jax.tree_util.tree_map", "tree_leaves": "jax.tree_util.tree_leaves",
+    "ravel_pytree": "jax.flatten_util.ravel_pytree", "norm": "jax.numpy.linalg.norm", "random": "jax.random",
+    "Array": "jaxtyping.Array", "ArrayLike": "jaxtyping.ArrayLike", "Shaped": "jaxtyping.Shaped",
+    "sum_rightmost": "numpyro.distributions.util.sum_rightmost", "tqdm": "tqdm.tqdm",
+    "wrappers": "flowjax.wrappers", "masks": "flowjax.masks", "flowjax": "flowjax",
+}
+_PRELUDE: dict = {}
+
+
+def prelude(prog: Program) -> Env:
+    """Name environment of the reference snippets: fixed, so that a reference does not depend on how the
+    module under analysis happens to spell its imports.  Standard third-party aliases plus every
+    top-level function / class of the repository (unique names only)."""
+    if id(prog) in _PRELUDE:
+        return _PRELUDE[id(prog)][1]
+    env = Env()
+    for k, q in STANDARD_ALIASES.items():
+        env.set(k, ("ext", q))
+    seen: dict = {}
+    for m in prog.modules.values():
+        for name in list(m.functions) + list(m.classes):
+            seen.setdefault(name, set()).add(f"{m.name}.{name}")
+    for name, quals in seen.items():
+        if len(quals) == 1 and env.get(name) is None:
+            env.set(name, ("ext", next(iter(quals))))
+    _PRELUDE[id(prog)] = (prog, env)
+    return env
+
+
 def eval_ref_method(prog: Program, cls: ClassInfo, src: str, args, kwargs=None, self_term=("sym", "self"),
                     want_fields=False, no_inline=None):
     """Evaluate `src` (a single def) as if it were a method of cls."""
@@ -19,7 +55,7 @@ def eval_ref_method(prog: Program, cls: ClassInfo, src: str, args, kwargs=None, 
     ctx = (cls.module, cls, self_term)
     if want_fields:
         it.self_fields = {}
-    r = it.apply_def(fn, Env(), ctx, [self_term] + list(args), kwargs or {})
+    r = it.apply_def(fn, Env(prelude(prog)), ctx, [self_term] + list(args), kwargs or {})
     if want_fields:
         return it.self_fields, it
     return r
@@ -28,7 +64,7 @@ def eval_ref_method(prog: Program, cls: ClassInfo, src: str, args, kwargs=None, 
 def eval_ref_function(prog: Program, module: Module, src: str, args, kwargs=None, no_inline=None):
     fn = ast.parse(src).body[0]
     it = Interp(prog, no_inline=no_inline)
-    return it.apply_def(fn, Env(), (module, None, None), list(args), kwargs or {})
+    return it.apply_def(fn, Env(prelude(prog)), (module, None, None), list(args), kwargs or {})
 
 
 # ---------------------------------------------------------------- C07: documented maps
